@@ -12,6 +12,7 @@ Reading guide
 * `XSD.integerLex` etc. : the lexical spaces, by the grammar productions of the recommendation
 -/
 import EPV.Lemmas.LexicalCast
+import EPV.Lemmas.LexicalRepr
 namespace EPV.C10
 open EPV EPV.LexLemmas
 
@@ -150,6 +151,12 @@ theorem dec_canon_fixed_point_of_ctor (s : List Char) (d : Lex.PyDec) (h : Lex.d
     cases h
     exact dec_canon_fixed_point _ (decOfLex_wf _ hl)
   · cases h
+
+/-- the canonical string is *syntactically* canonical (XSD 1.1 §3.3.3.2 / F&O 19.1.1): no '+', a single
+leading zero only directly before the point, no trailing fractional zero, no point for an integral value,
+no "-0". -/
+theorem dec_canon_is_canonical (d : Lex.PyDec) (h : WFDec d) :
+    XSD.isCanonicalDecimal (Lex.decCanon d) = true := decCanon_isCanonical d h
 
 /-- the fix of F10z is visible in the model (tests on literals): negative zero prints as "0" -/
 example : Lex.decCanon ⟨true, "0".toList, "00".toList⟩ = "0".toList ∧
@@ -563,6 +570,39 @@ theorem int_dec_string_roundtrip (ver : Lex.Ver) (v : Int) :
       simp only [pyDecVal, Lex.PyDec.coef, Lex.PyDec.scale, List.append_nil, List.length_nil, Lex.digitsVal,
         Nat.ofDigitChars_ten_toDigits, natAbs_signed]
     · rw [decOfLex_intCanon, decCanon_of_int]
+
+/-- PARTIAL (known finding F10b) **double → string in canonical E-notation**: for a finite non-zero double
+with shortest digits `ds` and decimal exponent `e`, outside the trigger `dblStrTrigger` the string that
+`string_value` derives from CPython's `repr` *is* the F&O / XSD canonical form (decimal notation for
+1e-6 ≤ |x| < 1e6, otherwise `d.dddE±x`).  `pyRepr` is the model of `repr(float)` stated in
+EPV/Lemmas/LexicalRepr.lean (trusted; compared with the real `repr` by the harness).
+Full statement (false, see `double_string_fails`): the same without the trigger hypothesis. -/
+theorem double_string_partial (neg : Bool) (n k : Nat) (ds : List Char) (e : Int) (hwf : WFDigits ds)
+    (ht : Lex.dblStrTrigger ds.length e = false) :
+    Lex.dblString (.fin neg n k) (pyRepr neg ds e) = XSD.doubleCanon neg ds e := by
+  rw [dblString_fin]; exact finStr_pyRepr neg ds e hwf ht
+
+/-- F10b witnesses (kernel-checked): 1e-7 → '1E-07' (canonical '1.0E-7'); 1e6 → '1000000' ('1.0E6');
+1e-5 → '1E-05' ('0.00001'); 1e16 → '1E16' ('1.0E16'). -/
+theorem double_string_fails :
+    (pyRepr false ['1'] (-7) = "1e-07".toList ∧ Lex.dblString (.fin false 1 0) "1e-07".toList = "1E-07".toList ∧
+      XSD.doubleCanon false ['1'] (-7) = "1.0E-7".toList ∧ Lex.dblStrTrigger 1 (-7) = true) ∧
+    (pyRepr false ['1'] 6 = "1000000.0".toList ∧ Lex.dblString (.fin false 1 0) "1000000.0".toList = "1000000".toList ∧
+      XSD.doubleCanon false ['1'] 6 = "1.0E6".toList ∧ Lex.dblStrTrigger 1 6 = true) ∧
+    (pyRepr false ['1'] (-5) = "1e-05".toList ∧ Lex.dblString (.fin false 1 0) "1e-05".toList = "1E-05".toList ∧
+      XSD.doubleCanon false ['1'] (-5) = "0.00001".toList ∧ Lex.dblStrTrigger 1 (-5) = true) ∧
+    (pyRepr false ['1'] 16 = "1e+16".toList ∧ Lex.dblString (.fin false 1 0) "1e+16".toList = "1E16".toList ∧
+      XSD.doubleCanon false ['1'] 16 = "1.0E16".toList ∧ Lex.dblStrTrigger 1 16 = true) := by decide
+
+/-- the hypotheses of `double_string_partial` are satisfiable on non-trivial doubles (tests on literals):
+1.5e20, −123456.789, 0.00015, 2.5e-10 -/
+example :
+    (Lex.dblStrTrigger 2 20 = false ∧ pyRepr false "15".toList 20 = "1.5e+20".toList ∧
+      Lex.dblString (.fin false 1 0) "1.5e+20".toList = "1.5E20".toList) ∧
+    (Lex.dblStrTrigger 9 5 = false ∧ pyRepr true "123456789".toList 5 = "-123456.789".toList ∧
+      XSD.doubleCanon true "123456789".toList 5 = "-123456.789".toList) ∧
+    (Lex.dblStrTrigger 2 (-4) = false ∧ pyRepr false "15".toList (-4) = "0.00015".toList) ∧
+    (Lex.dblStrTrigger 2 (-10) = false ∧ XSD.doubleCanon false "25".toList (-10) = "2.5E-10".toList) := by decide
 
 /-- the scope is inhabited by non-trivial pairs (tests on literals): -1.50 → integer truncates toward
 zero; 300 does not fit xs:byte; the double −3/2 becomes the decimal −1.5 exactly -/
